@@ -131,6 +131,15 @@ class Interp:
             self.funcs.update({n.name: n for n in t.body if isinstance(n, ast.FunctionDef)})
         self.globals = module_globals or {}
         self.depth = 0
+        self.choices = []      # decisions for tests the operand kinds leave open (explored exhaustively by the driver)
+        self.taken = []
+
+    def decide(self, what):
+        """a test whose outcome the symbolic operand does not determine: both outcomes are explored"""
+        i = len(self.taken)
+        v = self.choices[i] if i < len(self.choices) else True
+        self.taken.append((what, v))
+        return v
 
     # ---- classes ---------------------------------------------------------------------------------
     def bases(self, cls):
@@ -318,6 +327,8 @@ class Interp:
                 return o.fields[a]
             owner, fn = self.find_method(o.cls, a)
             if fn is not None:
+                if any(isinstance(d, ast.Name) and d.id == 'property' for d in fn.decorator_list):
+                    return self.call_function(fn, [o], {}, owner)
                 return ('bound', o, a)
             raise Raised('AttributeError', '%s has no attribute %s' % (o.cls, a))
         if isinstance(o, Sym):
@@ -493,6 +504,21 @@ class Interp:
                     return True
                 if nm == 'Operator' and k == 'Operator':
                     return True
+                if k == 'Operator' and nm in self.classes and self.is_subclass(nm, 'Operator'):
+                    # an arbitrary operator may or may not be an instance of this particular operator class
+                    sym = v[1] if (isinstance(v, tuple) and v and v[0] == 'typeof') else v
+                    known = getattr(sym, 'known_cls', None)
+                    if known is not None:
+                        if self.is_subclass(known, nm):
+                            return True
+                        continue
+                    excluded = getattr(sym, 'not_cls', set())
+                    if nm in excluded:
+                        continue
+                    if self.decide('isinstance(%s, %s)' % (sym.name, nm)):
+                        sym.known_cls = nm
+                        return True
+                    sym.not_cls = set(excluded) | {nm}
                 if isinstance(k, tuple) and self.is_subclass(k[1], nm):
                     return True
                 if nm in ('Constant', 'Converter') and k == 'Element':
@@ -542,6 +568,27 @@ class Interp:
                 return getattr(s, 'value', None) == o
             return False
         if isinstance(a, tuple) and isinstance(b, tuple):
+            if a[0] == 'typeof' and b[0] == 'typeof':
+                x, y = a[1], b[1]
+                if isinstance(x, Obj) and isinstance(y, Obj):
+                    return x.cls == y.cls
+                if isinstance(y, Sym):
+                    x, y = y, x
+                if isinstance(x, Sym) and isinstance(y, Obj):
+                    if x.kind != 'Operator' or not self.is_subclass(y.cls, 'Operator'):
+                        return False
+                    known = getattr(x, 'known_cls', None)
+                    if known is not None:
+                        return known == y.cls
+                    if y.cls in getattr(x, 'not_cls', set()):
+                        return False
+                    if self.decide('type(%s) is %s' % (x.name, y.cls)):
+                        x.known_cls = y.cls
+                        return True
+                    x.not_cls = set(getattr(x, 'not_cls', set())) | {y.cls}
+                    return False
+                if isinstance(x, Sym) and isinstance(y, Sym):
+                    return x is y or (x.kind == y.kind and x.kind != 'Operator')
             if a[0] == 'typeof' and b[0] == 'type':
                 return self.isinst(a[1], b)
             if b[0] == 'typeof' and a[0] == 'type':
